@@ -104,7 +104,7 @@ from mitmproxy.utils import human as _human, strutils as _strutils
 
 # the real functions, kept in a dict (module-level aliases would be patched together with the originals by vc.summary)
 _ORIG = {"indent": _dumper.indent, "format_address": _human.format_address, "b2e": _strutils.bytes_to_escaped_str,
-         "pretty_size": _human.pretty_size, "echo": _dumper.Dumper.echo, "style": _dumper.Dumper.style}
+         "pretty_size": _human.pretty_size, "echo": _dumper.Dumper.echo, "escape": _strutils.escape_control_characters, "style": _dumper.Dumper.style}
 
 STYLE_OPEN, STYLE_CLOSE = "⟪", "⟫"
 
@@ -172,6 +172,16 @@ def install_env(vc):
         _assume(v, If(lift(keep_spacing), printable_ascii(r, True), printable_ascii(r, False)))
         return r
 
+    def escape_model(v, text, keep_spacing=True):
+        # contract of escape_control_characters (scenario escape_control_characters): str in, Clean str out
+        if v.mode == "native":
+            return _ORIG["escape"](text, keep_spacing)
+        if not isinstance(v.resolve(text), SStr):
+            v.raise_(ValueError, "text type must be unicode")
+        r = v.ex.fresh("str", "escaped")
+        _assume(v, clean(r))
+        return r
+
     def pretty_size_model(v, size, *a, **k):
         if v.mode == "native":
             return _ORIG["pretty_size"](size, *a, **k)
@@ -184,6 +194,7 @@ def install_env(vc):
     vc.summary("mitmproxy.utils.human:format_address", format_address_model)
     vc.summary("mitmproxy.utils.human:pretty_size", pretty_size_model)
     vc.summary(SU + "bytes_to_escaped_str", b2e_model)
+    vc.summary(SU + "escape_control_characters", escape_model)
     return echoed
 
 
